@@ -5,7 +5,7 @@
     The PARSERS ([Parse], [range_groups]) are third-party, modelled and NOT verified: the theorems take what they
     return as given and are about everything after parsing — the comparison, the closures, the two functions. *)
 From Coq Require Import ZArith List Bool.
-From Low Require Import Lib.Lex Model.Semver Model.Vers Spec.VersSpec Spec.VersPrint
+From Low Require Import Lib.Lex Lib.Decimal_xpk Model.Semver Model.Vers Spec.VersSpec Spec.VersPrint
   Proofs.SemverOrder Proofs.VersProofs Proofs.SemverNoPanic Proofs.SemverPrintParse Proofs.SemverRangeParse Proofs.SemverParseInv Proofs.SemverWildcard.
 Import ListNotations.
 Open Scope Z_scope.
